@@ -9,7 +9,7 @@ META = {
     "explanation": "StrategyBase.rebalance verified against clauses over its ghost call log: a zero target closes the child (or does nothing when the child does not exist), a non-zero "
     "target performs exactly one trade on the named child (created lazily if needed), for the amount target*base - current holding computed from the child's weight and the strategy's "
     "value at the time of the trade (notional analogue and transact-vs-allocate choice for fixed income), with the update flag passed down; SecurityBase.allocate's exact-cost clause; "
-    "lemmas: with fractional positions and no costs the targeted child ends at (1-cash)*w of the strategy's value, for every prior holding and every cash fraction.",
+    "algos.Rebalance.__call__ verified iteration by iteration (base captured before any trade; every non-target with open value closed with update deferred; exactly one rebalance(weight, child, captured base x (1-cash), update=False) per target; one final root update), RebalanceOverTime.__call__ (step target = current weight + remaining gap / days left, one real Rebalance per step, countdown and disarming, last step target = final target), StrategyBase.allocate (parent debited / self credited once, each child receives amount x its weight with update deferred); lemmas: with fractional positions and no costs the targeted child ends at (1-cash)*w of the strategy's value, for every prior holding and every cash fraction.",
 }
 MANIFEST_ENTRY = {
     "level_text": "Deductive proof, for all target weights, prior holdings, bases and cash fractions, of what StrategyBase.rebalance trades (call-log clauses on every exit of the real body) "
@@ -27,7 +27,16 @@ def tasks(tier, seed):
         func("bt.core.SecurityBase.allocate"),
         *UPDATE_ALL,
         dict(kind="custom", module="props.lemmas", fn="c06_rebalance_lemmas"),
+        func("bt.core.StrategyBase.allocate"),
+        func("bt.algos.Rebalance.__call__"),
+        func("bt.algos.RebalanceOverTime.__call__"),
+        dict(kind="custom", module="props.bounded", fn="run_script", script="c06_rebalance", seed=seed, n=15 if tier == "quick" else 300, props=["C06"]),
     ]
+
+
+def post(results, tier, seed):
+    b = [r["bounded"] for r in results if r.get("bounded")]
+    return None, dict(bounded_stand_ins=b, bounded_note="real runs on the interpreted scratch copy; never counted in obligations/discharged")
 
 
 REPLAY = '''
@@ -55,6 +64,8 @@ print("JSON:" + json.dumps(dict(reproduced=abs(got - want) > 1e-9, weight_of_a=g
 def replay(o):
     from pyvc.replay import Scratch
 
+    if o.get("replay_inline"):
+        return o["replay_inline"]
     if "lemma" not in o["id"]:
         from pyvc.concrete import replay_scenario
 
